@@ -29,18 +29,31 @@ REQUIRE = {"kill_individual": 500, "kill_pool_level": 100, "suspend_accepted": 2
 
 def cases(tier, seed, shard, nshards):
     rng = rng_for(ID, seed, shard)
+    if tier == "thorough" or shard < 3:
+        for _b in range(1 if tier == "quick" else 2):
+            yield _exec.busy_case(rng, 4500 if tier == "quick" else 9000, growing=True, p_suspend=0.1)
     for i in range(N_MIX[tier]):
         kw = dict(steps=rng.choice([40, 80, 160]), p_bad=0.0, integer_sizes=rng.random() < 0.5,
                   p_suspend=rng.choice([0.2, 0.6, 1.0]), mem_heavy=True, p_unready=0.0,
                   overcommit=rng.random() < 0.6, small_ram=rng.random() < 0.5, npipes=rng.randint(3, 12))
-        if tier == "thorough" and i % 1200 == 0:
-            kw.update(steps=8000, npipes=40, integer_sizes=False, drain=3000)  # float drift
+        if (tier == "thorough" and i % 1200 == 0) or (tier == "quick" and i == 7 and shard < 6):
+            # float drift / long history: > 10,000 memory updates per pool
+            kw.update(steps=9000 if tier == "thorough" else 5000, npipes=1200, integer_sizes=False, drain=3000, pools=rng.choice([1, 2]))
         yield _exec.mix_case(rng, i, **kw)
     for i in range(N_SIM[tier]):
         yield _sim.random_sim_case(rng, small=True, algos=("priority", "priority", "overbook", "overbook", "naive", "priority-pool", "vrandom", "vrandom"),
                                    mem_levels=[0.05, 0.15, 0.3, 0.6, 0.9])
     if tier == "thorough" and shard < 4:
         yield _sim.regression_case(shard)
+    # scale cases: large in one dimension (one per shard for the first shards; all of them, twice, in the thorough tier)
+    _kinds = ["many-small", "storm"]
+    for _j, _kd in enumerate(_kinds * (1 if tier == "quick" else 2)):
+        if tier == "thorough" or _j == shard:
+            _k, _, _a = _kd.partition(":")
+            yield _sim.scale_case(rng, _k, algo=_a or None)
+    if tier == "thorough":
+        for _k in range(2):
+            yield _sim.long_sim_case(rng, algos=("priority", "overbook", "vrandom"))
 
 
 def run_case(case, mon):
